@@ -153,12 +153,17 @@ class SymBuilder:
     def setitem(self, o, k, v):
         self.ctx.setitem(o, k, v)
 
+    def model(self, module, name):
+        """a class / function of a model module under pyvc/models/ (e.g. fault injection helpers)"""
+        return self.world.model_module(module).globals[name]
+
     def vfs(self):
         """the map path -> text of the modelled file system (pyvc/models/vfs.py); open()/os.path.* on paths below /vfs/ go there"""
         return self.world.model_module("vfs").globals["FILES"]
 
 
 _NATIVE_VFS = {}
+_NATIVE_MODELS = {}
 
 
 def native_vfs():
@@ -312,6 +317,16 @@ class NativeBuilder:
 
     def setitem(self, o, k, v):
         o[k] = v
+
+    def model(self, module, name):
+        import os
+        ns = _NATIVE_MODELS.get(module)
+        if ns is None:
+            ns = {}
+            src = os.path.join(os.path.dirname(os.path.abspath(__file__)), "models", module + ".py")
+            exec(compile(open(src).read(), src, "exec"), ns)
+            _NATIVE_MODELS[module] = ns
+        return ns[name]
 
     def vfs(self):
         return native_vfs()
